@@ -585,9 +585,23 @@ func (c *c18Hist) runToFixpoint(check bool, label string) (herr string) {
 						if c.lastRunCommit >= 0 && commit > c.lastRunCommit {
 							prevAt = c.lastRunCommit
 						}
+						// under LatestOnly a superseded change is never processed: if the entity changed more than once since the
+						// previous fixpoint, the change that removed the link may be one the job never looks at
+						mark := ""
+						if c.latestOnly {
+							nv := 0
+							for _, v2 := range dd.Feed[c.fixLen[dep.DS]:] {
+								if v2.ID == x {
+									nv++
+								}
+							}
+							if nv >= 2 {
+								mark = " [several changes of it since, LatestOnly]"
+							}
+						}
 						for id := range c.reach(x, dep, prevAt) {
 							if mv, ok := mainView[id]; ok && !mv.Deleted {
-								need(id, fmt.Sprintf("was connected at the previous run to %s (changed in %s) through a first outgoing hop of %v", x, dep.DS, dep.Joins), commit)
+								need(id, fmt.Sprintf("was connected at the previous run to %s (changed in %s) through a first outgoing hop of %v%s", x, dep.DS, dep.Joins, mark), commit)
 							}
 						}
 					}
@@ -604,7 +618,8 @@ func (c *c18Hist) runToFixpoint(check bool, label string) (herr string) {
 			// input class of the recorded known finding: the requirement comes from the "as it stood at the previous run"
 			// clause and the previous run was a single run that did not drain the dependency's pending changes (the
 			// implementation looks at the state as of the last change that run processed, not as of the run)
-			kf := c.lastRunCommit >= 0 && strings.HasPrefix(required[id], "was connected at the previous run")
+			kf := strings.HasPrefix(required[id], "was connected at the previous run") &&
+				(c.lastRunCommit >= 0 || strings.Contains(required[id], "[several changes of it since, LatestOnly]"))
 			if !emitted[id] || lastAt[id] < after[id] {
 				clause := "C18:not-emitted:" + id
 				what := fmt.Sprintf("%s: after catching up (%d runs) the job never emitted %s (%s); emitted %v", label, runs, id, required[id], sortedKeys(emitted))
